@@ -533,8 +533,11 @@ def _gen_hessian_init(w, rng):
         return None
     t = w.pool[s].tag
     harmonic = rng.random() < 0.35
+    # the harmonic / Hertzian model is meant for r_cut = sigma, but nothing forbids the usual
+    # wide cutoff table (alpha = 2 is then still finite; otherwise both worlds see the same NaN)
+    wide = harmonic and rng.random() < 0.3
     args = {"snapshot": ref(s, rng.randrange(t["T"])), "masses": ref(comp(w, s, ".masses")), "epsilons": ref(comp(w, s, ".eps")),
-            "sigmas": ref(comp(w, s, ".KK")), "r_cuts": ref(comp(w, s, ".KK" if harmonic else ".rcut")),
+            "sigmas": ref(comp(w, s, ".KK")), "r_cuts": ref(comp(w, s, ".KK" if harmonic and not wide else ".rcut")),
             "ppp": ref(comp(w, s, ".ppp")), "shiftpotential": rng.random() < 0.7}
     maybe_default(w, rng, args, "shiftpotential", ok=args["shiftpotential"])
     return {"args": args, "meta": {"snaps": t["bundle"], "harmonic": harmonic, "ndim": t["ndim"], "base": s}}
@@ -571,7 +574,9 @@ def _gen_diag(w, rng):
         return None
     tag = w.pool[op["obj"]].tag
     p = _gen_params(rng)
-    if tag["harmonic"] != (p["model"] == "harmonic_hertz"):
+    if tag["harmonic"] != (p["model"] == "harmonic_hertz") and rng.random() < 0.7:
+        # mostly the model the object's cutoff table was chosen for; sometimes any model on any
+        # object (one HessianMatrix evaluated with several potentials in a row)
         p = {"model": "harmonic_hertz", "alpha": 2} if tag["harmonic"] else {"model": "lennard_jones"}
     a = op["args"]
     a["params"] = p
